@@ -1183,6 +1183,18 @@ Proof.
     fold (nabs w' n) (nabs (sw st) n). rewrite A. reflexivity.
 Qed.
 
+(* ---- OInsVia: prepend / append(key[, value]) are OIns at the front / the back ---- *)
+Lemma step_insvia st x f ka va : Inv st -> step_good st (OInsVia x f ka va).
+Proof.
+  intros IV. unfold step_good. cbn [step spec_step]. rewrite sget_abs.
+  destruct (getv (svars st) x) as [c|] eqn:G; cbn [option_map]; [|exists false, st; auto].
+  destruct c as [a|n]; cbn [abs_cont].
+  - cbn [can_insvia]. exists false, st. auto.
+  - destruct (can_insvia (ckind n) f); [|exists false, st; auto].
+    pose proof (step_ins st x (via_pos f) ka va IV) as R. unfold step_good in R. cbn [step spec_step] in R.
+    rewrite sget_abs, G in R. cbn [option_map abs_cont] in R. exact R.
+Qed.
+
 (* ---------------------------------------------------------------------------------------- *)
 (* all operations                                                                             *)
 (* ---------------------------------------------------------------------------------------- *)
@@ -1210,4 +1222,5 @@ Proof.
   - apply step_appendvals; auto.
   - apply step_inshint; auto.
   - apply step_sort; auto.
+  - apply step_insvia; auto.
 Qed.
